@@ -355,8 +355,72 @@ def targets(ctx):
         fails, results = run_variants(SINGLE_CONSTRUCT if case["fixed"] == "single_construct_packages" else SERVICE_PROTO, case["vseeds"])
         return Eval(fails, weight=len(VARIANTS), nontrivial_count=len(VARIANTS), labels=["fixed:" + case["fixed"]])
 
+    # ---- the kitchen-sink corpus compiled under every option combination: Hypothesis value trees, same bytes / JSON
+    def corpus_variant_ev(case):
+        import betterproto
+
+        from ..engine import Guarded, guard
+        from ..values import norm, snap_bp
+        from . import _common as cm
+        from ._corpus import corpus
+
+        name, tree, opts = case["msg"], case["tree"], tuple(case["opts"])
+        c0, c1 = corpus(), corpus(opts=opts)
+        schema = c0.schema
+        mi = schema.msg(f"ks.{name}")
+        adapter = BPAdapter(schema, enum_as=case.get("enum_as", "member"))
+        vname = "+".join(opts)
+
+        def observe(c, t):
+            cls = c.bp(name)
+            m = guard("build", adapter.build, cls, mi, t, case.get("route", "kwargs"))
+            b = guard("bytes", bytes, m)
+            out = {"bytes": b, "json": guard("to_json", m.to_json), "snake": guard("to_dict_snake", m.to_dict, betterproto.Casing.SNAKE)}
+            m2 = guard("parse", cls().parse, b)
+            out["decoded"] = norm(schema, mi, guard("snapshot", snap_bp, schema, mi, m2))
+            m3 = guard("from_json", cls().from_json, out["json"])
+            out["from_json"] = norm(schema, mi, guard("snapshot_json", snap_bp, schema, mi, m3))
+            return out
+
+        def diff(t):
+            try:
+                a = observe(c0, t)
+            except Guarded:
+                return None  # the default configuration does not accept this value: out of C18's domain
+            try:
+                b = observe(c1, t)
+            except Guarded as g:
+                return [(f"variant_raises_{g.where}_{type(g.exc).__name__}", str(g)[:300])]
+            return [(f"variant_{k}_differs", f"default={a[k]!r:.200} variant={b[k]!r:.200}") for k in a if repr(a[k]) != repr(b[k])]
+
+        found = diff(tree)
+        if found is None:
+            return Eval(discard="default configuration rejects the value")
+        fails = []
+        for cl, d in found:
+            def fails_one(mi_, single, cl=cl):
+                if mi_.full_name != mi.full_name:
+                    return False
+                r = diff(single)
+                return bool(r) and any(x == cl for x, _ in r)
+
+            for w in cm.culprits(schema, mi, tree, fails_one):
+                fails.append(Failure(cl, f"corpus|{vname}|{cl}|{w}", f"msg={name} tree={tree!r:.400} :: {d}"))
+        return Eval(fails, nontrivial=bool(tree), labels=[f"variant:{vname}", f"msg:{name}", f"enum_as:{case.get('enum_as', 'member')}"])
+
+    from . import _common as _cm
+
+    @st.composite
+    def corpus_variant_strat(draw):
+        case = dict(draw(_cm.msg_tree_strategy()))
+        case["opts"] = list(draw(st.sampled_from(VARIANTS[1:] + [VARIANTS[3], VARIANTS[5]])))
+        case["enum_as"] = draw(st.sampled_from(["member", "int"]))
+        case["route"] = draw(st.sampled_from(["kwargs", "kwargs", "setattr"]))
+        return case
+
     strat = st.tuples(schema_ast(max_packages=2), st.lists(st.integers(0, 2**20), min_size=3, max_size=3)).map(lambda t: {"ast": t[0], "vseeds": t[1]})
     return [
+        Target("corpus_values_x_options", corpus_variant_ev, strategy=corpus_variant_strat(), quick=300, thorough=5000, time_quick=80),
         Target("all_cardinalities_service_x_options", fixed_ev, cases=fixed_cases, exhaustive=True, shard_cases=False),
         Target("grammar_schemas_x_options", grammar_ev, strategy=strat, quick=2, thorough=30, time_quick=150, time_thorough=1500, pin_budget=8, pin_sigs=1),
     ]
